@@ -538,8 +538,31 @@ static void run_c13_sequence(void)
         }
         sim_note("| ");
     }
-    ABT_OK(ABT_thread_create(rt->pools[plan_n((uint32_t)rt->npools)], sq_fn, NULL, ABT_THREAD_ATTR_NULL, &Q.th));
-    ABT_OK(ABT_thread_set_callback(Q.th, sq_cb, NULL));
+    int how = (int)plan_n(3);
+    if (how == 0) {
+        ABT_OK(ABT_thread_create(rt->pools[plan_n((uint32_t)rt->npools)], sq_fn, NULL, ABT_THREAD_ATTR_NULL, &Q.th));
+        ABT_OK(ABT_thread_set_callback(Q.th, sq_cb, NULL));
+    } else {
+        /* the callback comes with the creation attribute; the unit is created migratable, or
+         * not migratable and made migratable afterwards -- the callback stays registered */
+        ABT_thread_attr attr;
+        ABT_OK(ABT_thread_attr_create(&attr));
+        ABT_OK(ABT_thread_attr_set_callback(attr, sq_cb, NULL));
+        ABT_OK(ABT_thread_attr_set_migratable(attr, how == 1 ? ABT_TRUE : ABT_FALSE));
+        ABT_OK(ABT_thread_create(rt->pools[plan_n((uint32_t)rt->npools)], sq_fn, NULL, attr, &Q.th));
+        ABT_OK(ABT_thread_attr_free(&attr));
+        if (how == 2) {
+            int rc = ABT_thread_migrate_to_pool(Q.th, rt->pools[0]);
+            ABT_pool lp;
+            ABT_OK(ABT_thread_get_last_pool(Q.th, &lp));
+            SIM_CHECK(rc != ABT_SUCCESS || lp == rt->pools[0], "migrate:non-migratable-accepted", "a request for a unit created as not migratable was accepted");
+            ABT_bool m = ABT_TRUE;
+            ABT_OK(ABT_thread_is_migratable(Q.th, &m));
+            SIM_CHECK(m == ABT_FALSE, "migrate:attribute", "a unit created with the attribute 'not migratable' reports migratable");
+            ABT_OK(ABT_thread_set_migratable(Q.th, ABT_TRUE));
+            sim_count("c13.units_made_migratable_later", 1);
+        }
+    }
     Q.go = 1;
     ABT_OK(ABT_thread_join(Q.th));
     SIM_CHECK(Q.done[0], "once:not-exactly-once", "the unit did not finish its first life");
